@@ -143,6 +143,15 @@ def programs(tier: str):
             disp[p1] = {"enter": "ok", "exit": "susp_ok", "yields": "none"}
             disp[p2] = {"enter": "ok", "exit": "susp_ok", "yields": "none"}
             yield {"family": "scope", "block": {"kind": "ascope", "supply": ["A"], "disp": disp, "spawns": [dict(SPAWN[0])], "pause": True, "ending": "return"}, "cancels": 1, "outer": False}
+    # a spawned task that answers its cancellation with a BaseException which is not an Exception;
+    # the scope's logger at DEBUG level (every diagnostic line of the library is actually produced)
+    for ending in ("return", "raise"):
+        for n_disp in (0, 1):
+            disp = [{"enter": "ok", "exit": "susp_ok", "yields": "none"}] if n_disp else []
+            yield {"family": "scope", "block": {"kind": "ascope", "supply": ["A"], "disp": disp, "spawns": [{"kind": "raise_base_on_cancel", "pauses": 1}], "pause": True, "ending": ending}, "cancels": 1, "outer": False}
+    for b in outer_blocks:
+        if len(b["disp"]) <= 1 and len(b["spawns"]) <= 1:
+            yield {"family": "scope", "block": b, "cancels": 1, "outer": False, "debug_logging": True}
     # tasks spawned from callables that are not plain coroutine functions (an object with an async
     # __call__, a lambda returning the coroutine, a functools.partial, a haiway timeout wrapper)
     for form in ("object", "lambda", "partial", "wrapped"):
@@ -355,6 +364,20 @@ def _check_script(program, ch: Chooser) -> Result:
 
 
 def execute(program, ch: Chooser) -> Result:  # noqa: C901
+    if program.get("debug_logging"):
+        import logging as _logging
+
+        root_ = _logging.getLogger()
+        old_ = root_.level
+        root_.setLevel(_logging.DEBUG)
+        try:
+            return _execute(program, ch)
+        finally:
+            root_.setLevel(old_)
+    return _execute(program, ch)
+
+
+def _execute(program, ch: Chooser) -> Result:  # noqa: C901
     if program["family"] == "check":
         return _check_script(program, ch)
     if program["family"] == "self":
